@@ -112,8 +112,8 @@ impl Scenario for Bytes {
     }
     fn runs(&self, tier: Tier) -> u64 {
         match tier {
-            Tier::Quick => 24_000,
-            Tier::Thorough => 2_400_000,
+            Tier::Quick => 400000,
+            Tier::Thorough => 20000000,
         }
     }
     fn declare(&self, cov: &mut Cov) {
@@ -145,8 +145,8 @@ impl Scenario for Bytes {
             cov.probe_declare("ground_truth_checked");
         } else {
             cov.probe_declare("recovery_checked");
-            cov.probe_declare("shadow_replaced_after_error");
-            cov.probe_declare("shadow_replaced_after_event");
+            cov.probe_declare("obs_shadow_replaced_after_error");
+            cov.probe_declare("obs_shadow_replaced_after_event");
         }
     }
 
@@ -369,7 +369,7 @@ impl Scenario for Bytes {
                         } else {
                             pend_run = 0;
                             shadow = DynSet::new(cfg.set);
-                            env.cov.probe(if matches!(r, Res::Err(_)) { "shadow_replaced_after_error" } else { "shadow_replaced_after_event" });
+                            env.cov.probe(if matches!(r, Res::Err(_)) { "obs_shadow_replaced_after_error" } else { "obs_shadow_replaced_after_event" });
                         }
                     }
                 }
